@@ -301,6 +301,12 @@ pub fn policies(tier: Tier) -> Vec<LPol> {
             let rec = E::Rec(vec![("f".into(), x.clone()), ("k".into(), E::Long(1))]);
             push(format!("steps{}:record-literal:age", p.steps), guarded(g, E::bin(BinOp::Gt, E::attr(E::attr(rec.clone(), "f"), "age"), E::Long(0))), p.uses_tags, &mut out);
             push(format!("steps{}:record-literal:in", p.steps), guarded(g, E::bin(BinOp::In, E::attr(rec.clone(), "f"), E::Ent(gh()))), p.uses_tags, &mut out);
+            // a field that is NOT accessed holds a deeper dereference than the accessed one (after hand
+            // mutant c16_record_other_fields_unchecked): building the record evaluates it all the same
+            let rec_deep = E::Rec(vec![("f".into(), x.clone()), ("k".into(), E::attr(E::attr(E::attr(x.clone(), "mgr"), "mgr"), "age"))]);
+            push(format!("steps{}:record-literal:deep-other-field", p.steps), guarded(g, E::bin(BinOp::Gt, E::attr(E::attr(rec_deep, "f"), "age"), E::Long(0))), p.uses_tags, &mut out);
+            let rec_deep2 = E::Rec(vec![("f".into(), E::Var(Var::Principal)), ("k".into(), E::bin(BinOp::In, E::attr(x.clone(), "mgr"), E::Ent(gh())))]);
+            push(format!("steps{}:record-literal:deep-other-field-in", p.steps), guarded(g, E::bin(BinOp::Gt, E::attr(E::attr(rec_deep2, "f"), "age"), E::Long(0))), p.uses_tags, &mut out);
             let rec2 = E::Rec(vec![("o".into(), E::Rec(vec![("f".into(), x.clone())]))]);
             push(format!("steps{}:nested-record-literal:age", p.steps), guarded(g, E::bin(BinOp::Gt, E::attr(E::attr(E::attr(rec2, "o"), "f"), "age"), E::Long(0))), p.uses_tags, &mut out);
             // dereference of an if-then-else producing entities
